@@ -14,7 +14,6 @@
 package main
 
 import (
-	"encoding/json"
 	"fmt"
 	"go/ast"
 	"go/parser"
@@ -32,13 +31,18 @@ const modPath = "github.com/polynetwork/poly"
 type Seg struct {
 	K   string `json:"k"` // lit | fix | var
 	Lit string `json:"lit,omitempty"`
+	Name string `json:"name,omitempty"` // identity of the constant the literal comes from (package dir + name)
 	N   int    `json:"n,omitempty"`
 	Src string `json:"src,omitempty"`
+	Chain bool `json:"chain,omitempty"` // fix(8) segment built from a chain id expression
 }
 
 func (s Seg) String() string {
 	switch s.K {
 	case "lit":
+		if s.Name != "" {
+			return fmt.Sprintf("lit(%s=%q)", s.Name[strings.LastIndex(s.Name, "/")+1:], s.Lit)
+		}
 		return fmt.Sprintf("lit(%q)", s.Lit)
 	case "fix":
 		return fmt.Sprintf("fix(%d)", s.N)
@@ -69,14 +73,20 @@ type extractor struct {
 	pkgs    map[string]*pkgInfo // by dir
 	Sites   []Site
 	Unres   []string // unresolved constructions (extractor incompleteness, listed in the evidence)
+	PkgVarPrefixes map[string]string
+	assignedNames  map[string]bool
+	callerNames    map[string]string
 	ConcatCalls int
 	CacheUses   int
 	CacheUsesResolved int
 }
 
+// loadOverlay: only MUTATED files (killdemo's VERIF_EXTRA_OVERLAY list) replace the repository source for the
+// analysis; the base overlay (harmony build stubs, injected accessors) is deliberately ignored so that the real
+// harmony router source is analysed too.
 func loadOverlay() map[string]string {
 	out := map[string]string{}
-	p := os.Getenv("VERIF_OVERLAY")
+	p := os.Getenv("VERIF_EXTRA_OVERLAY")
 	if p == "" {
 		return out
 	}
@@ -84,9 +94,11 @@ func loadOverlay() map[string]string {
 	if err != nil {
 		return out
 	}
-	var o struct{ Replace map[string]string }
-	if json.Unmarshal(b, &o) == nil {
-		out = o.Replace
+	for _, ln := range strings.Split(string(b), "\n") {
+		f := strings.Split(ln, "\t")
+		if len(f) == 2 && strings.TrimSpace(f[0]) != "" {
+			out[filepath.Join(repoRoot, strings.TrimSpace(f[0]))] = strings.TrimSpace(f[1])
+		}
 	}
 	return out
 }
@@ -101,6 +113,41 @@ func (x *extractor) readFile(path string) ([]byte, bool) {
 	}
 	b, err := os.ReadFile(path)
 	return b, err == nil
+}
+
+// assigned reports whether a package-level name is the target of an assignment anywhere under native/ (by name).
+func (x *extractor) assigned(p *pkgInfo, name string) bool {
+	if x.assignedNames == nil {
+		x.assignedNames = map[string]bool{}
+		filepath.Walk(filepath.Join(repoRoot, "native"), func(path string, info os.FileInfo, err error) error {
+			if err != nil || info.IsDir() || !strings.HasSuffix(path, ".go") || strings.HasSuffix(path, "_test.go") {
+				return nil
+			}
+			src, ok := x.readFile(path)
+			if !ok {
+				return nil
+			}
+			f, err := parser.ParseFile(token.NewFileSet(), path, src, 0)
+			if err != nil {
+				return nil
+			}
+			ast.Inspect(f, func(n ast.Node) bool {
+				if as, ok := n.(*ast.AssignStmt); ok && as.Tok == token.ASSIGN {
+					for _, l := range as.Lhs {
+						switch t := l.(type) {
+						case *ast.Ident:
+							x.assignedNames[t.Name] = true
+						case *ast.SelectorExpr:
+							x.assignedNames[t.Sel.Name] = true
+						}
+					}
+				}
+				return true
+			})
+			return nil
+		})
+	}
+	return x.assignedNames[name]
 }
 
 func (x *extractor) loadPkg(dir string) *pkgInfo {
@@ -145,9 +192,14 @@ func (x *extractor) loadPkg(dir string) *pkgInfo {
 					for _, s := range gd.Specs {
 						vs := s.(*ast.ValueSpec)
 						for i, n := range vs.Names {
-							if i < len(vs.Values) && gd.Tok == token.CONST {
+							if i < len(vs.Values) {
 								if v, ok := x.constString(p, f, vs.Values[i]); ok {
-									p.consts[n.Name] = v
+									if gd.Tok == token.CONST {
+										p.consts[n.Name] = v
+									} else if !x.assigned(p, n.Name) { // package-level string var that is never re-assigned
+										p.consts[n.Name] = v
+										x.PkgVarPrefixes[strings.TrimPrefix(p.dir, repoRoot+"/")+"."+n.Name] = v
+									}
 								}
 							}
 						}
@@ -228,6 +280,21 @@ func importDir(f *ast.File, alias string) (string, bool) {
 		}
 	}
 	return "", false
+}
+
+// constName is the identity of a named constant: "<package dir>.<NAME>" ("" for inline literals).
+func (x *extractor) constName(p *pkgInfo, f *ast.File, e ast.Expr) string {
+	switch v := e.(type) {
+	case *ast.Ident:
+		return strings.TrimPrefix(p.dir, repoRoot+"/") + "." + v.Name
+	case *ast.SelectorExpr:
+		if id, ok := v.X.(*ast.Ident); ok {
+			if dir, ok := importDir(f, id.Name); ok {
+				return strings.TrimPrefix(dir, repoRoot+"/") + "." + v.Sel.Name
+			}
+		}
+	}
+	return ""
 }
 
 func (x *extractor) constString(p *pkgInfo, f *ast.File, e ast.Expr) (string, bool) {
@@ -396,6 +463,9 @@ func fixOfType(t string) (int, bool) {
 	case "ethcommon.Address":
 		return 20, true
 	}
+	if strings.HasSuffix(t, ".Hash") { // go-ethereum common.Hash, btcd chainhash.Hash, bytom bc.Hash: 32 bytes
+		return 32, true
+	}
 	if strings.HasPrefix(t, "[") && strings.HasSuffix(t, "]byte") {
 		if n, err := strconv.Atoi(t[1 : len(t)-5]); err == nil {
 			return n, true
@@ -429,7 +499,7 @@ func (c *fctx) classify(e ast.Expr, depth int) Seg {
 	case *ast.CallExpr:
 		if isByteSliceConv(t) {
 			if s, ok := c.x.constString(c.p, c.f, t.Args[0]); ok {
-				return Seg{K: "lit", Lit: s, Src: src}
+				return Seg{K: "lit", Lit: s, Name: c.x.constName(c.p, c.f, t.Args[0]), Src: src}
 			}
 			if id, ok := t.Args[0].(*ast.Ident); ok {
 				if b, ok := c.bind[id.Name]; ok {
@@ -442,13 +512,20 @@ func (c *fctx) classify(e ast.Expr, depth int) Seg {
 		if sel, ok := t.Fun.(*ast.SelectorExpr); ok {
 			switch sel.Sel.Name {
 			case "GetUint64Bytes":
-				return Seg{K: "fix", N: 8, Src: src}
+				return Seg{K: "fix", N: 8, Src: src, Chain: len(t.Args) == 1 && chainLike(exprStr(t.Args[0]))}
 			case "GetUint32Bytes":
 				return Seg{K: "fix", N: 4, Src: src}
 			case "ToArray": // common.Uint256.ToArray
 				if id, ok := sel.X.(*ast.Ident); ok {
 					if n, ok := fixOfType(c.typeOf(id.Name, t.Pos())); ok {
 						return Seg{K: "fix", N: n, Src: src}
+					}
+					if rhs, ok := c.lastAssign(id.Name, t.Pos()); ok && rhs != nil {
+						if call, ok := rhs.(*ast.CallExpr); ok {
+							if s2, ok := call.Fun.(*ast.SelectorExpr); ok && s2.Sel.Name == "Hash" { // Header.Hash() common.Uint256
+								return Seg{K: "fix", N: 32, Src: src}
+							}
+						}
 					}
 				}
 				return v
@@ -513,6 +590,11 @@ func (c *fctx) contractOf(e ast.Expr) string {
 		return "?" + t.Name
 	}
 	return "?" + exprStr(e)
+}
+
+func chainLike(s string) bool {
+	l := strings.ToLower(s)
+	return strings.Contains(l, "chainid") || strings.Contains(l, "chain_id") || strings.Contains(l, "chanid")
 }
 
 func isConcatKey(e ast.Expr) (*ast.CallExpr, bool) {
@@ -595,6 +677,7 @@ func (x *extractor) callerConsts(p *pkgInfo, fd *ast.FuncDecl, param string) []s
 				found = true
 				if s, ok := x.constString(p, f, ce.Args[idx]); ok {
 					set[s] = true
+					x.callerNames[s] = x.constName(p, f, ce.Args[idx])
 				} else {
 					all = false
 				}
@@ -651,7 +734,7 @@ func (x *extractor) scanFunc(p *pkgInfo, f *ast.File, fd *ast.FuncDecl) {
 					for k, s := range v {
 						m[k] = s
 					}
-					m[id.Name] = Seg{K: "lit", Lit: c}
+					m[id.Name] = Seg{K: "lit", Lit: c, Name: x.callerNames[c]}
 					nv = append(nv, m)
 				}
 			}
@@ -862,6 +945,11 @@ func kindsOf(sites []Site) []*Kind {
 			order = append(order, id)
 		}
 		k = m[id]
+		for i := range k.Segs {
+			if i < len(s.Segs) && s.Segs[i].Chain {
+				k.Segs[i].Chain = true
+			}
+		}
 		k.Sites = append(k.Sites, fmt.Sprintf("%s:%d(%s,%s)", s.File, s.Line, s.Func, s.Use))
 		addUniq(&k.Uses, s.Use)
 		addUniq(&k.Pkgs, filepath.Dir(s.File))
